@@ -147,6 +147,19 @@ CLAIMED = {
             "Bounded: text <=2, identifiers <=3, streams <=7 tokens; encoding excluded (C15). ASSUMED conventions: scripting-off reader, "
             "escape_rcdata reader, boolean attributes by presence, None = '' in doctypes, lower-cased names. Eleven listed deviations "
             "are carried as named branches, each reproduced on the real code.", "5/C08"),
+    "C06": ("model_checking",
+            "TLA+ specs Encoding (BOM detection, the precedence chain step by step, confidence lifecycle with late-meta restart) and "
+            "Prescan (the WHATWG byte-level prescan, get-an-attribute, pragma machine, content charset extraction) with html5lib's "
+            "deviations as named branches; TLC theorems incl. the action property 'a certain encoding never changes'; replay into "
+            "HTMLBinaryInputStream / HTMLParser.parse / ContentAttrParser; recorded runs validated step by step (Trace_Encoding)",
+            "TLC checks on the intended configuration that the precedence machine yields the first applicable source with the "
+            "documented confidence (exhaustive over BOM x 5 arguments x in-window declaration), that a certain encoding never "
+            "changes, that a late declaration confirms or restarts exactly as specified (at most once), and prescan range / "
+            "needs-a-meta / prefix-stability / pragma-machine theorems over all fragment strings in the bound; every behaviour of the "
+            "code-faithful configuration (14 listed deviations) is replayed with exact comparison and real runs are validated by TLC.",
+            "The standard is transcribed from memory; ASSUMED clauses follow the code ('<' ending unquoted values, the XML-declaration "
+            "sniff not modelled, late-meta elif). Which metas reach the in-head rules is taken from the recording; tree equality is "
+            "computed by the harness against stdlib-decoded text. Inputs stay below the 10240-character chunk; chardet absent.", "5/C06"),
 }
 
 NOT_YET = "check not built yet in this round (planned, see DESIGN.md section 5)"
